@@ -2805,7 +2805,17 @@ func (c S3ApiController) PutActions(ctx *fiber.Ctx) error {
 			ObjectETag:    &res.ETag,
 			ObjectSize:    contentLength,
 			EventName:     s3event.EventObjectCreatedPut,
+			VersionId:     eventVersionId(res.VersionID),
 		})
+}
+
+// eventVersionId is the version id a notification carries: the id the
+// backend created, nil when it created none
+func eventVersionId(id string) *string {
+	if id == "" {
+		return nil
+	}
+	return &id
 }
 
 func (c S3ApiController) DeleteBucket(ctx *fiber.Ctx) error {
@@ -3286,6 +3296,7 @@ func (c S3ApiController) DeleteActions(ctx *fiber.Ctx) error {
 			BucketOwner: parsedAcl.Owner,
 			EventName:   s3event.EventObjectRemovedDelete,
 			Status:      http.StatusNoContent,
+			VersionId:   res.VersionId,
 		})
 }
 
